@@ -143,6 +143,9 @@ func RunSyncer(s *Store, col *ev.Collector, label string, depth int, dl ev.Deadl
 				name     string
 				cluster  string
 				from, to int // source entries [from,to] (1-based), 0 = not a delivery
+				// snapFirst: a snapshot is begun before this delivery (positions cloned, data image taken) and
+				// serialised after it, as the snapshot goroutine of the raft node does next to the apply loop
+				snapFirst bool
 			}
 			var evs []evt
 			for _, c := range clusters {
@@ -156,19 +159,24 @@ func RunSyncer(s *Store, col *ev.Collector, label string, depth int, dl ev.Deadl
 						// an entry ahead of the position: only "the one proposal in between was
 						// dropped" is a producible receiver log (pipelined ApplyRaftReqs), budget 1
 						if i == int(pos)+2 && !x.gapUsed && c == "A" {
-							evs = append(evs, evt{fmt.Sprintf("deliver %s#%d (proposal of #%d dropped)", c, i, i-1), c, i, i})
+							evs = append(evs, evt{fmt.Sprintf("deliver %s#%d (proposal of #%d dropped)", c, i, i-1), c, i, i, false})
 						}
 						continue
 					}
-					evs = append(evs, evt{fmt.Sprintf("deliver %s#%d", c, i), c, i, i})
+					evs = append(evs, evt{fmt.Sprintf("deliver %s#%d", c, i), c, i, i, false})
 					if c == "A" {
 						for j := i + 1; j <= n && j <= i+2; j++ {
 							if i <= int(pos)+1 {
-								evs = append(evs, evt{fmt.Sprintf("deliver-batch %s#%d..%d", c, i, j), c, i, j})
+								evs = append(evs, evt{fmt.Sprintf("deliver-batch %s#%d..%d", c, i, j), c, i, j, false})
 							}
 						}
 					}
 				}
+			}
+			for _, d := range append([]evt(nil), evs...) {
+				d.snapFirst = true
+				d.name = "snapshot begun; " + d.name + "; snapshot written"
+				evs = append(evs, d)
 			}
 			evs = append(evs, evt{name: "snapshot"}, evt{name: "restart"})
 			for _, e := range evs {
@@ -190,6 +198,12 @@ func RunSyncer(s *Store, col *ev.Collector, label string, depth int, dl ev.Deadl
 					if strings.Contains(e.name, "dropped") {
 						n.gapUsed = true
 					}
+					var pending *node.VerifSnapHandle
+					if e.snapFirst {
+						n.snapDump = s.Dump()
+						pending = nd.VerifBeginSnapshotMeta()
+						n.log = nil
+					}
 					batch := nd.VerifBatchOperator()
 					for i := e.from; i <= e.to; i++ {
 						ent := syncerEntry(n.next, e.cluster, logs[e.cluster][i-1], 0)
@@ -198,6 +212,9 @@ func RunSyncer(s *Store, col *ev.Collector, label string, depth int, dl ev.Deadl
 						nd.VerifApplyEntry(ent, false, batch)
 					}
 					batch.CommitBatch()
+					if pending != nil {
+						n.snapMeta = pending.Data()
+					}
 				case e.name == "snapshot":
 					n.snapDump = s.Dump()
 					n.snapMeta = nd.VerifSnapshotMeta()
